@@ -1,5 +1,7 @@
 import OtelVerif.Model.C13
 import OtelVerif.Lemmas.C13Faithful
+import OtelVerif.Lemmas.C13Hooks
+import OtelVerif.Gen.UnmarshalHooks
 import OtelVerif.Gen.ConfigSchemas
 /-!
 # C13 — configuration loading is faithful and strict
@@ -619,14 +621,68 @@ open OtelVerif.Gen in
 /-- no built-in configuration has a map keyed by an opaque string (the JSON-map-key leak of C14 is not reachable) -/
 theorem C13_builtin_no_opaque_map_key : ∀ c ∈ ConfigSchemas.components, noOpaqueKey c.2.1 = true := by decide
 
+/-! ### custom `Unmarshal` methods: inside the theorems -/
+
+/-- **Typed configuration through a component's own `Unmarshal`** (generic decode with the fix-ups of
+`hooksOfType`): a key written at a leaf position holds exactly the written value, unless a fix-up that
+fires for this configuration rewrites that very position (`Hook.compatible`; the only such cases in the
+built-in components are the `*_url_path` normalisation of the OTLP receiver). -/
+theorem C13_faithful_written_hooked (hooks : List Hook) (S : KS) (d : TV) (v : Val) (t : TV) (p : List String) (x : Val)
+    (hs : shape S d = true) (hd : decodeC hooks S d v = some t) (hv : valGet v p = some x)
+    (hk : (kindAt S p).map isLeafKind = some true) (hc : ∀ h ∈ hooks, h.compatible v p = true) :
+    getS S t p = some (.atom x) :=
+  written_reflected_hooked hooks S d v t p x hs hd hv hk hc
+
+/-- … and the effective configuration shows it (redacted where opaque). -/
+theorem C13_effective_hooked (hooks : List Hook) (S : KS) (d : TV) (v : Val) (t : TV) (p : List String) (x : Val)
+    (hs : shape S d = true) (hw : ∀ h ∈ hooks, h.wellPlaced S = true) (hd : decodeC hooks S d v = some t)
+    (hv : valGet v p = some x) (hk : (kindAt S p).map isLeafKind = some true)
+    (hc : ∀ h ∈ hooks, h.compatible v p = true) :
+    evGet (encodeV S t) p = some (shown ((kindAt S p).map isOpaqueKind) x) :=
+  effective_shows S t p x (decodeC_shape hooks S d v t hs hw hd)
+    (written_reflected_hooked hooks S d v t p x hs hd hv hk hc) hk
+
+/-- the repaired precedence of the deprecated `blocking`: a written `block_on_overflow` is what the typed
+configuration holds, whatever `blocking` says; an unwritten one takes the alias -/
+example :
+    let S : KS := .struct [("sending_queue", .struct [("block_on_overflow", .scalar), ("blocking", .scalar)])]
+    let d : TV := .struct [("sending_queue", .struct [("block_on_overflow", .atom (.scalar 0)), ("blocking", .atom (.scalar 0))])]
+    let hooks := [Hook.aliasIfUnset ["sending_queue"] "blocking" "block_on_overflow"]
+    ((decodeC hooks S d (.map [("sending_queue", .map [("block_on_overflow", .scalar 1), ("blocking", .scalar 0)])])).bind
+        (fun t => getS S t ["sending_queue", "block_on_overflow"]),
+     (decodeC hooks S d (.map [("sending_queue", .map [("blocking", .scalar 1)])])).bind
+        (fun t => getS S t ["sending_queue", "block_on_overflow"]))
+      = (some (.atom (.scalar 1)), some (.atom (.scalar 1))) := by
+  simp [decodeC, decodeV, decodeFs, lookupVal, preHook, postHook, isSet, valGet, getS, getSF, setPath, setF]
+
 open OtelVerif.Gen in
-/-- the positions decoded by a type's own `Unmarshal` — where the generic theorems are *not* claimed and
-only the differential speaks (**partial**).  A new custom `Unmarshal` in a built-in configuration
-changes the regenerated list and this obligation stops checking until it has been reviewed. -/
+/-- the positions decoded by a type's own `Unmarshal` (regenerated).  A new custom `Unmarshal` in a
+built-in configuration changes the list and this obligation stops checking until it has been modelled. -/
 theorem C13_builtin_custom_positions : ConfigSchemas.customPositions =
-    [("exporters/otlp", "", "otlpexporter.Config"),
-     ("exporters/otlp", "sending_queue", "queuebatch.Config"),
-     ("exporters/otlphttp", "sending_queue", "queuebatch.Config"),
-     ("receivers/otlp", "", "otlpreceiver.Config")] := by decide
+    [("exporters/otlp", [], "otlpexporter.Config"),
+     ("exporters/otlp", ["sending_queue"], "queuebatch.Config"),
+     ("exporters/otlphttp", ["sending_queue"], "queuebatch.Config"),
+     ("receivers/otlp", [], "otlpreceiver.Config")] := by decide
+
+open OtelVerif.Gen in
+/-- every one of them has a hand-modelled fix-up, placed on positions of the kinds it expects in the
+regenerated schema: the hooked theorems apply to every built-in component -/
+theorem C13_builtin_hooks_modelled : ∀ c ∈ ConfigSchemas.components,
+    (componentHooks ConfigSchemas.customPositions c.1).elim false (fun hooks => hooks.all (fun h => h.wellPlaced c.2.1)) = true := by
+  decide
+
+/-- the bodies of those `Unmarshal` methods are the ones that were modelled (fingerprints regenerated
+by `translators/cmd/unmarshalhooks`; a changed body has to be re-modelled) -/
+theorem C13_hook_bodies_as_modelled : Gen.UnmarshalHooks.bodies =
+    [("queuebatch.Config", "3777169255574fb5d81fac26ddfab4057e5ec4f4401a9fa6a2427885c74534a2"),
+     ("otlpreceiver.Config", "9a8d8bb2dace14b923772a9a4c9e1027a4268861d3f5e71003168db0f577066b"),
+     ("otlpexporter.Config", "5c336cc63ed79c6d70b775bf8a0756cca9543546da5e7f0c1339a5c17f7b08f5")] := by decide
+
+/-- the named exceptions: the key paths a fix-up may rewrite although they are not written (`blocking`
+alias target, unwritten OTLP receiver protocols, the subtree of a written deprecated `batcher`) and the
+written leaves it may normalise (`*_url_path`) -/
+example : (componentHooks Gen.ConfigSchemas.customPositions "receivers/otlp").map (fun hs => hs.flatMap Hook.targets)
+    = some [["protocols", "grpc"], ["protocols", "http"], ["protocols", "http", "traces_url_path"],
+            ["protocols", "http", "metrics_url_path"], ["protocols", "http", "logs_url_path"]] := by decide
 
 end OtelVerif.C13
